@@ -141,6 +141,10 @@ Fixpoint bump (before : list elem) (node : elem) (d : Q) : list elem * elem * op
               else here
   end.
 
+(* a span is padded when its loss is below the configured padding, by the difference *)
+Definition pad_needed (c : span_cfg) (sl : Q) : bool := qltb sl (c_padding c).
+Definition pad_incr (c : span_cfg) (sl : Q) : Q := c_padding c - sl.
+
 (* the loop of add_fiber_padding over the fibres of the OMS, in order.  seg = the elements already visited since the
    last amplifier (or the ingress), nearest first; done = everything before, nearest first.  span_loss and
    find_first_node only need seg: no generator steps across an amplifier.  The result is the whole OMS, last element
@@ -158,9 +162,9 @@ Fixpoint padr (c : span_cfg) (done seg : list elem) (after : list elem) : list e
           else
           let sl := span_loss false seg (Fib f) t in
           let f1 := set_dsl f sl in
-          if qltb sl (c_padding c) then
-            match bump seg (Fib f1) (c_padding c - sl) with
-            | (seg', Fib f2, Some _) => padr c done (Fib (set_dsl f2 (sl + (c_padding c - sl))) :: seg') t
+          if pad_needed c sl then
+            match bump seg (Fib f1) (pad_incr c sl) with
+            | (seg', Fib f2, Some _) => padr c done (Fib (set_dsl f2 (sl + pad_incr c sl)) :: seg') t
             | (seg', e2, _) => padr c done (e2 :: seg') t           (* the span starts with a Fused: no padding *)
             end
           else padr c done (Fib f1 :: seg) t
@@ -235,6 +239,12 @@ Definition auto_voa (c : span_cfg) (pmax gmax power_target gain : Q) : Q :=
    smallest margin met while choosing *)
 Definition selector := Q -> Q -> res (amp * Q * Q).
 
+(* set_one_amplifier, imposed type_variety: the reduction that keeps the total output power within p_max (in gain mode
+   the output power follows from the gain target) *)
+Definition imposed_red (power_mode : bool) (pmax pref_total prev_dp prev_voa node_loss g0 dp0 : Q) : Q :=
+  if power_mode then Qmin 0 (pmax - (pref_total + dp0))
+  else Qmin 0 (pmax - (pref_total + prev_dp - node_loss - prev_voa + g0)).
+
 (* set_one_amplifier; returns the designed point and the (dp, voa) handed to the next amplifier *)
 Definition set_one_gen (c : span_cfg) (lib : list amp) (pref_total prev_dp prev_voa node_loss : Q)
                        (tp : res Q) (tp_arg : Q) (sel : selector) (a : ampn) : res (damp * Q * Q) :=
@@ -246,9 +256,7 @@ Definition set_one_gen (c : span_cfg) (lib : list amp) (pref_total prev_dp prev_
       match find_amp (n_variety nd) lib with
       | None => Err "KeyError:type_variety"
       | Some p =>
-          let red := if c_power_mode c then Qmin 0 (a_pmax p - (pref_total + dp0))
-                     else Qmin 0 (a_pmax p - (pref_total + prev_dp - node_loss - prev_voa + g0)) in
-          Ok (p, red, 1)
+          Ok (p, imposed_red (c_power_mode c) (a_pmax p) pref_total prev_dp prev_voa node_loss g0 dp0, 1)
       end in
   let dp := dp0 + red in
   let g := g0 + red in
